@@ -16,9 +16,11 @@ def shape(t):
     return t
 
 
-def _member(n, traj, ram, disk):
+def _member(n, traj, ram, disk, style=None):
     from .. import monitor
     cfg = {"cls": "Multistage", "n": n, "ram": ram, "disk": disk, "traj": traj, "passes": 1}
+    if style:
+        cfg["style"] = style
     r = monitor.execute(cfg, want_trace=True)
     m = {"cfg": cfg, "viol": [], "status": r["status"], "nontrivial": False}
     if r["status"] == "inconclusive":
@@ -94,6 +96,14 @@ def _group(job):
     return members
 
 
+def _styled(job):
+    """One member built in another call style (keywords in the documented / the reverse order, defaults
+    omitted): the declared RAM and DISK counts are the same, so are the label and traffic predicates."""
+    n, traj, ram, disk, style = job
+    m, _ = _member(n, traj, ram, disk, style)
+    return [m]
+
+
 def _gen(job):
     tier, seed, count = job
     from hypothesis import strategies as st
@@ -110,6 +120,14 @@ def _gen(job):
 def check_witness(data, show=False):
     w = data["witness"]
     res = []
+    if w.get("style"):
+        m = _styled((w["n"], w["traj"], w["ram"], w["disk"], w["style"]))[0]
+        seen = set()
+        for pred, detail in m["viol"]:
+            if pred not in seen:
+                seen.add(pred)
+                res.append((("Multistage", pred), m["cfg"], detail, "config"))
+        return res
     tot = w["ram"] + w["disk"]
     job = (w["n"], w["traj"], tot) if tot <= 40 else (w["n"], w["traj"], tot, (w["ram"],))
     for m in _group(job):
@@ -143,7 +161,13 @@ def run(prop, args):
     nbox = len(jobs)
     jobs += _gen((tier, args.seed, 60 if tier == "quick" else 1500))
     res = R.pmap(_group, jobs, chunksize=2)
-    rep.exhaustive = [{"box": "n<=%d, both trajectories, every total s in 1..n+1, every split of s; then n<=%d with totals 2..%d, every split" % (NB, NB2, SB2), "cases": nbox, "exhaustive": True}]
+    NS = 12 if tier == "quick" else 24
+    sjobs = [(n, tr, ram, s - ram, st) for n in range(3, NS + 1) for tr in ("maximum", "revolve") for s in range(2, 6) for ram in range(1, s)
+             for st in ("kw", "kwr", "dflt") if s - ram != ram or st != "kwr"]
+    res += R.pmap(_styled, sjobs, chunksize=8)
+    rep.exhaustive = [{"box": "n<=%d, both trajectories, every total s in 1..n+1, every split of s; then n<=%d with totals 2..%d, every split" % (NB, NB2, SB2), "cases": nbox, "exhaustive": True},
+                      {"box": "mixed splits built in other call styles (keywords in documented and in reverse order, defaults omitted): n in 3..%d, totals 2..5, both trajectories" % (12 if tier == "quick" else 24), "cases": 0, "exhaustive": True}]
+    rep.exhaustive[-1]["cases"] = len(sjobs)
     rep.extra["groups"] = len(jobs)
     for mem in res:
         for m in mem:
@@ -172,6 +196,16 @@ def run(prop, args):
         def gj(c):
             tot = c["ram"] + c["disk"]
             return (c["n"], c["traj"], tot) if tot <= 40 else (c["n"], c["traj"], tot, (c["ram"],))
+
+        if w.get("style"):
+            def fails_s(c):
+                return any(p == b[1] for p, _ in _styled((c["n"], c["traj"], c["ram"], c["disk"], w["style"]))[0]["viol"])
+            small = C.shrink(w, lambda c: c.get("style") == w["style"] and fails_s(c), budget=120)
+            m = _styled((small["n"], small["traj"], small["ram"], small["disk"], w["style"]))[0]
+            for p, d in m["viol"]:
+                if p == b[1]:
+                    return m["cfg"], d
+            return None
 
         def fails(c):
             return any(p == b[1] for m in _group(gj(c)) if m["cfg"] == c or b[1] == "split-changes-shape" for p, _ in m["viol"])
